@@ -225,6 +225,7 @@ func (s *State) clone() *State {
 	c := newCloner()
 	n := &State{prog: s.prog, ex: s.ex, objCtr: s.objCtr, pcSent: 0, steps: 0, atomic: s.atomic, nowCtr: s.nowCtr, lastNow: s.lastNow,
 		preempts: s.preempts, begun: s.begun, ticks: s.ticks, firstRange: s.firstRange}
+	n.schedPts = append([]schedPt{}, s.schedPts...)
 	n.pc = append([]*Term{}, s.pc...)
 	n.vars = append([]*Term{}, s.vars...)
 	n.apps = append([]*Term{}, s.apps...)
